@@ -220,7 +220,7 @@ BOpAll(c, variant) ==
        [] kind = "sor"      -> LET Di == DinvOf(A) IN TupB(NT, LAMBDA k : BFilt(BSorOp(A, Di, w, T[k])))
        [] kind = "ssor"     -> LET Di == DinvOf(A) IN
                                IF variant = "def" THEN TupB(NT, LAMBDA k : BFilt(BSsorOp(A, Di, w, T[k])))
-                               ELSE TupB(NT, LAMBDA k : BFilt(BSsorSweeps(A, Di, w, T[k])))
+                               ELSE TupB(NT, LAMBDA k : BFilt(BSsorSweeps(A, Di, w, T[k])))      \* (Table computes both from one pair of sweeps)
        [] kind = "poly"     -> TupB(NT, LAMBDA k : BFilt(BPolyOp(A, A, w, par.m, T[k])))
        [] kind = "ilu"      -> LET LU == BIluFactor(A, IluPattern(n, P, par.p), IF variant = "def" THEN "right" ELSE "left")
                                    Pi == Tup(n, LAMBDA I : BInv(LU[I][I]))
@@ -238,12 +238,19 @@ BPolyMixedAll(a, c) == LET Ad == BAOf(a)  Al == BAOf(c)  T == BTests
 \*   ilu_left_mult : the multiplier block formed as D_jj^-1 R_ij instead of R_ij D_jj^-1
 DevName == CASE kind = "ssor" -> "ssor_unscaled" [] kind = "ilu" -> "ilu_left_mult" [] OTHER -> "none"
 
+\* SSOR: definition and deviation from ONE pair of sweeps per test vector (the filters are linear: the factor commutes with them)
+SsorScaled(sw) == LET f == Mul(par.w, Sub(D(2), par.w)) IN TupB(NT, LAMBDA k : BVScale(f, sw[k]))
 Table ==
+  IF kind = "ssor"
+  THEN LET s1 == BOpAll(1, "dev")  s2 == BOpAll(2, "dev")
+       IN [o1 |-> SsorScaled(s1), o2 |-> SsorScaled(s2), x12 |-> <<>>, x21 |-> <<>>, d1 |-> s1, d2 |-> s2]
+  ELSE
   [o1 |-> BOpAll(1, "def"), o2 |-> BOpAll(2, "def"),
    x12 |-> IF kind = "poly" THEN BPolyMixedAll(1, 2) ELSE <<>>,
    x21 |-> IF kind = "poly" THEN BPolyMixedAll(2, 1) ELSE <<>>,
    d1 |-> IF DevName # "none" THEN BOpAll(1, "dev") ELSE <<>>,
    d2 |-> IF DevName # "none" THEN BOpAll(2, "dev") ELSE <<>>]
+\* (law SsorTableLaw below: the scaled sweeps are the definition BSsorOp followed by the filter)
 BAllExact(rs) == \A k \in 1..Len(rs) : BVExact(rs[k])
 \* the input lies in the exact dyadic domain (the deviations need not)
 TabExact(t) == BAllExact(t.o1) /\ BAllExact(t.o2) /\ BAllExact(t.x12) /\ BAllExact(t.x21)
@@ -289,10 +296,10 @@ BSorRelation == AtStart /\ kind = "sor" => \A c \in Cs, k \in Ks :
    LET A == BAOf(c)  x == BRes(c, k)  b == BTests[k]
    IN \A I \in 1..n : VAdd(BApp(A[I][I], x[I]), VScale(par.w, VSumTo(LAMBDA J : BApp(A[I][J], x[J]), I - 1))) = VScale(par.w, b[I])
 \* (D + w L) D^-1 (D + w U) x = w (2 - w) b,  with z = D^-1 t verified by D z = t
-BSsorRelation == AtStart /\ kind = "ssor" => \A c \in Cs, k \in Ks :
-   LET A == BAOf(c)  x == BRes(c, k)  b == BTests[k]  w == par.w
+BSsorRelation == AtStart /\ kind = "ssor" => \A c \in Cs : LET A == BAOf(c)  Di == DinvOf(A) IN \A k \in Ks :
+   LET x == BRes(c, k)  b == BTests[k]  w == par.w
        t == Tup(n, LAMBDA I : VAdd(BApp(A[I][I], x[I]), VScale(w, VSumTo(LAMBDA s : BApp(A[I][I + s], x[I + s]), n - I))))
-       z == Tup(n, LAMBDA I : BApp(BInv(A[I][I]), t[I]))
+       z == Tup(n, LAMBDA I : BApp(Di[I], t[I]))
    IN /\ \A I \in 1..n : BApp(A[I][I], z[I]) = t[I]
       /\ \A I \in 1..n : VAdd(BApp(A[I][I], z[I]), VScale(w, VSumTo(LAMBDA J : BApp(A[I][J], z[J]), I - 1)))
                          = VScale(Mul(w, Sub(D(2), w)), b[I])
@@ -303,6 +310,8 @@ BIluLaws == AtStart /\ kind = "ilu" => \A c \in Cs :
    IN /\ \A ik \in Q : prod[ik[1]][ik[2]] = A[ik[1]][ik[2]]
       /\ P \subseteq Q /\ (par.p > 0 => IluPattern(n, P, par.p - 1) \subseteq Q)
       /\ (Q = IluPattern(n, P, n) => \A k \in Ks : BMatVec(A, BRes(c, k)) = BTests[k])
+SsorTableLaw == AtStart /\ kind = "ssor" /\ Cardinality(P) <= 1 => \A c \in Cs :
+   LET A == BAOf(c)  Di == DinvOf(A) IN \A k \in Ks : BRes(c, k) = BFilt(BSsorOp(A, Di, par.w, BTests[k]))
 BLinearity == hist = <<>> => \A c \in Cs :
    BRes(c, NT) = BVSub(BVScale(D(2), BRes(c, NT - 1)), BRes(c, 1))
 \* BS = 1: the blocked definitions coincide with the scalar definitions of module Precond
